@@ -12,7 +12,7 @@ from sympath import tstr
 
 PID = "C19"
 CRATE = "rink_sandbox"
-ATOMIC = "std::sync::atomic::Atomic::<usize>::"
+ATOMIC = "core::sync::atomic::Atomic::<usize>::"
 
 
 def simplify(t):
@@ -137,7 +137,7 @@ def run(chk, F):
     methods = {}
     for m in ("alloc", "alloc_zeroed", "realloc", "dealloc"):
         try:
-            methods[m] = F.find(CRATE, "<alloc::Alloc as std::alloc::GlobalAlloc>::" + m, exact=True)
+            methods[m] = F.find(CRATE, "<alloc::Alloc as core::alloc::global::GlobalAlloc>::" + m, exact=True)
         except AnchorLost as e:
             chk.anchor_lost("alloc-methods", m, str(e))
     for m, fn in methods.items():
